@@ -25,7 +25,7 @@ func run(c *mon.Ctx) {
 	c.Floor("rejected.encrypted", 100)
 	c.Floor("rejected.table_id", 100)
 	c.Floor("rejected.identifier", 100)
-	c.Stream("sections", c.N(60000, 3000000), func(i int, r *gen.Rand) {
+	c.Stream("sections", c.N(60000, 60000000), func(i int, r *gen.Rand) {
 		s := ref.GenSig(r, true)
 		if r.Chance(8) {
 			s.EncAlg = byte(r.Intn(64))
